@@ -22,8 +22,9 @@ import (
 
 	"github.com/asticode/go-astits"
 	"github.com/bluenviron/gohlslib/v2"
+	"github.com/bluenviron/mediacommon/v2/pkg/codecs/h264"
+	"github.com/bluenviron/mediacommon/v2/pkg/codecs/mpeg4audio"
 	"github.com/bluenviron/mediacommon/v2/pkg/formats/fmp4"
-	"github.com/bluenviron/mediacommon/v2/pkg/formats/mpegts"
 
 	"verif/harness/internal/m3u8"
 	"verif/harness/internal/sched"
@@ -499,7 +500,7 @@ func (r *runner) decodeFMP4(stream int, body []byte) ([]trace.M, error) {
 	}
 	var out []trace.M
 	for _, p := range parts {
-		var trs []trace.M
+		trs := []trace.M{}
 		for _, pt := range p.Tracks {
 			ti := pt.ID - 1
 			if ti < 0 || ti >= len(r.streams[stream].tracks) {
@@ -526,74 +527,88 @@ func (r *runner) decodeFMP4(stream int, body []byte) ([]trace.M, error) {
 	return out, nil
 }
 
-// decodeTS decodes one MPEG-TS segment on its own (independent decodability) and checks that PAT and PMT
-// precede the first PES packet.
+// decodeTS decodes one MPEG-TS segment on its own (independent decodability) at PES level and checks that
+// PAT and PMT precede the first PES packet. (mediacommon's Reader cannot be initialised on a segment that
+// lacks data of one of the tracks, which is legal, so the demuxer is used directly.)
 func (r *runner) decodeTS(body []byte) (trace.M, error) {
 	tablesFirst := 1
-	{
-		dmx := astits.NewDemuxer(nil2ctx(), bytes.NewReader(body))
-		sawPAT, sawPMT := false, false
-		for {
-			d, err := dmx.NextData()
-			if err != nil {
-				break
-			}
-			if d.PAT != nil {
-				sawPAT = true
-			}
-			if d.PMT != nil {
-				sawPMT = true
-			}
-			if d.PES != nil {
-				if !sawPAT || !sawPMT {
-					tablesFirst = 0
-				}
-				break
-			}
+	if len(body) >= 188 {
+		pid := (int(body[1]&0x1f) << 8) | int(body[2])
+		if body[0] != 0x47 || pid != 0 {
+			tablesFirst = 0
 		}
-		if len(body) >= 188 {
-			pid := (int(body[1]&0x1f) << 8) | int(body[2])
-			if body[0] != 0x47 || pid != 0 {
-				tablesFirst = 0
-			}
-		}
+	} else {
+		tablesFirst = 0
 	}
-	rd := &mpegts.Reader{R: bytes.NewReader(body)}
-	if err := rd.Initialize(); err != nil {
-		return nil, err
-	}
+	dmx := astits.NewDemuxer(nil2ctx(), bytes.NewReader(body))
+	sawPAT, sawPMT, sawPES := false, false, false
+	pidTrack := map[uint16]int{}
 	per := map[int][]trace.M{}
-	for _, tr := range rd.Tracks() {
-		switch tr.Codec.(type) {
-		case *mpegts.CodecH264:
-			t := r.trackOfKind("v")
-			rd.OnDataH264(tr, func(pts int64, dts int64, au [][]byte) error {
-				id, same := r.identUnit(t, au)
-				per[t] = append(per[t], trace.M{"id": id, "same": same, "dts": dts, "dur": int64(-1), "off": pts - dts, "sync": -1})
-				return nil
-			})
-		case *mpegts.CodecMPEG4Audio:
-			t := r.trackOfKind("a")
-			rd.OnDataMPEG4Audio(tr, func(pts int64, aus [][]byte) error {
-				for i, au := range aus {
-					id, same := r.identUnit(t, [][]byte{au})
-					d := pts + int64(i)*1024*90000/int64(r.kits[t].rate())
-					per[t] = append(per[t], trace.M{"id": id, "same": same, "dts": d, "dur": int64(-1), "off": int64(0), "sync": -1})
-				}
-				return nil
-			})
-		}
-	}
 	for {
-		err := rd.Read()
+		d, err := dmx.NextData()
 		if err != nil {
 			if errors.Is(err, astits.ErrNoMorePackets) {
 				break
 			}
 			return nil, err
 		}
+		if d.PAT != nil {
+			sawPAT = true
+		}
+		if d.PMT != nil {
+			sawPMT = true
+			for _, es := range d.PMT.ElementaryStreams {
+				switch es.StreamType {
+				case astits.StreamTypeH264Video:
+					pidTrack[es.ElementaryPID] = r.trackOfKind("v")
+				case astits.StreamTypeAACAudio:
+					pidTrack[es.ElementaryPID] = r.trackOfKind("a")
+				}
+			}
+		}
+		if d.PES == nil {
+			continue
+		}
+		if !sawPES {
+			sawPES = true
+			if !sawPAT || !sawPMT {
+				tablesFirst = 0
+			}
+		}
+		t, ok := pidTrack[d.PID]
+		if !ok {
+			per[-2] = append(per[-2], trace.M{"id": -1, "same": 0, "dts": int64(0), "dur": int64(-1), "off": int64(0), "sync": -1})
+			continue
+		}
+		oh := d.PES.Header.OptionalHeader
+		if oh == nil || oh.PTS == nil {
+			return nil, fmt.Errorf("PES without PTS")
+		}
+		pts := oh.PTS.Base
+		dts := pts
+		if oh.DTS != nil {
+			dts = oh.DTS.Base
+		}
+		if r.kits[t].kind() == "v" {
+			var au h264.AnnexB
+			if err := au.Unmarshal(d.PES.Data); err != nil {
+				return nil, err
+			}
+			id, same := r.identUnit(t, au)
+			per[t] = append(per[t], trace.M{"id": id, "same": same, "dts": dts, "dur": int64(-1), "off": pts - dts, "sync": -1})
+		} else {
+			var pkts mpeg4audio.ADTSPackets
+			if err := pkts.Unmarshal(d.PES.Data); err != nil {
+				return nil, err
+			}
+			for i, pkt := range pkts {
+				id, same := r.identUnit(t, [][]byte{pkt.AU})
+				dd := pts + int64(i)*1024*90000/int64(r.kits[t].rate())
+				per[t] = append(per[t], trace.M{"id": id, "same": same, "dts": dd, "dur": int64(-1), "off": int64(0), "sync": -1})
+			}
+		}
 	}
-	var trs []trace.M
+	trs := []trace.M{}
 	ts := []int{}
 	for t := range per {
 		ts = append(ts, t)
@@ -601,9 +616,6 @@ func (r *runner) decodeTS(body []byte) (trace.M, error) {
 	sort.Ints(ts)
 	for _, t := range ts {
 		trs = append(trs, trace.M{"t": t + 1, "base": int64(-1), "u": per[t]})
-	}
-	if trs == nil {
-		trs = []trace.M{}
 	}
 	return trace.M{"seq": -1, "tr": trs, "pat": tablesFirst}, nil
 }
@@ -726,6 +738,7 @@ func (r *runner) observe(ev trace.M, opts Options) {
 					fr, err := r.decodeTS(body)
 					if err != nil {
 						em["derr"] = 1
+						em["dmsg"] = err.Error()
 					} else {
 						em["frags"] = []trace.M{fr}
 					}
@@ -733,6 +746,7 @@ func (r *runner) observe(ev trace.M, opts Options) {
 					frs, err := r.decodeFMP4(si, body)
 					if err != nil {
 						em["derr"] = 1
+						em["dmsg"] = err.Error()
 					} else if frs != nil {
 						em["frags"] = frs
 					}
@@ -784,7 +798,7 @@ func (r *runner) observe(ev trace.M, opts Options) {
 				inits = append(inits, trace.M{"ok": -2})
 				continue
 			}
-			var tl []trace.M
+			tl := []trace.M{}
 			for _, it := range in.Tracks {
 				ti := it.ID - 1
 				g, t := 0, -1
